@@ -386,12 +386,13 @@ def part_procs(ctx, et):
             layout[k % nproc].append(t)
         layout = [l for l in layout if l]
         seed = rng.randrange(10**6)
-        r = xc.run_stress_procs(world, pre, setup, layout, et, seed)
-        d = "processes=%d, threads=%r, seed=%d" % (len(layout), [len(l) for l in layout], seed)
+        cache_mode = ["none", "distinct", "shared"][n % 3]
+        r = xc.run_stress_procs(world, pre, setup, layout, et, seed, cache_mode=cache_mode)
+        d = "processes=%d, threads=%r, cache folders: %s, seed=%d" % (len(layout), [len(l) for l in layout], cache_mode, seed)
         if r["errors"]:
             ctx.obligation("multi-process-driver-ran", False, repr(r["errors"])[:500])
             continue
-        r["layout"] = dict(kind="processes", processes=layout, seed=seed)
+        r["layout"] = dict(kind="processes", processes=layout, seed=seed, cache_mode=cache_mode)
         hists.append((d, world, pre, setup, r))
         ov = overlap_pairs(r["ops"])
         ctx.case(("procs", d, repr(layout)), nontrivial=ov > 0)
@@ -400,6 +401,92 @@ def part_procs(ctx, et):
     ctx.count("procs:histories", len(hists))
     judge_histories(ctx, "processes", hists)
 
+
+
+# ------------------------------------------------------------------------------- part D: several instances, one folder
+def part_instances(ctx, et):
+    """Two Applications over one storage folder (= two server processes / workers), for the [storage] configurations
+    none / one shared cache folder / one cache folder per instance, with instance 2 constructed before or WHILE
+    instance 1 has a request inside its exclusive section.  Monitors: instance 2 enters no critical section while
+    instance 1 holds the exclusive lock; the outcome is that of a serial order (decided in Coq)."""
+    rng = ctx.rng
+    w = xc.owner_world(rng)
+    ev = (0, "CEvent", 0)
+    cal = [(1, ("RPropfind", (10,), False)), (1, ("RMkcalendar", (10, 20), ("XNone",)))]
+    pairs = [("create-create", cal, PUT(1, (10, 20, 100), ev, inm=True), PUT(1, (10, 20, 100), (0, "CEvent", 1), inm=True), "enter"),
+             ("proppatch-proppatch", cal, (1, ("RProppatch", (10, 20), ("XProps", ("TRNone",), [(1, 1)]))),
+              (1, ("RProppatch", (10, 20), ("XProps", ("TRNone",), [(2, 2)]))), "rename"),
+             ("put-put-if-match", cal + [PUT(1, (10, 20, 100), ev)], PUT(1, (10, 20, 100), (0, "CEvent", 1), im=("CTag", ("EtItem", ev))),
+              PUT(1, (10, 20, 100), (0, "CTodo", 1), im=("CTag", ("EtItem", ev))), "rename")]
+    for _ in range(ctx.n(0, 25)):
+        a = xc.gen_request(rng, 1, False, reads=0.0)
+        b = xc.gen_request(rng, 1, False, reads=0.2)
+        pairs.append(("gen", xc.gen_setup(rng, 2), a, b, rng.choice(["enter", "rename"])))
+    runs, cases = [], []
+    reported = False
+    for name, setup, a, b, park in pairs:
+        for cache_mode in ("none", "shared", "distinct"):
+            for late in (False, True):
+                if name == "gen" and rng.random() < 0.5:
+                    continue
+                r = xc.run_two_instances(w, [], setup, a, b, et, cache_mode, late, park=park)
+                ctx.case(("instances", name, repr(a), repr(b), cache_mode, late, park), nontrivial=bool(r["parked"]))
+                ctx.count("instances:%s:%s" % (cache_mode, "late" if late else "early"))
+                ctx.count("instances:parked" if r["parked"] else "instances:not-parked")
+                rp = dict(kind="instances", name=name, world=x_hcheck.world_json(w), setup=setup, a=a, b=b, cache_mode=cache_mode,
+                          second_instance_constructed_while_request_in_flight=late, park=park, events=r["events"],
+                          responses=[repr(c) for c in r["resps"]], store=repr(r["store"]))
+                if (r["entered_while_held"] or r["b_done_while_held"]) and not reported:
+                    reported = True
+                    ctx.violation("two server instances on one storage folder do not exclude each other (filesystem_cache_folder: %s; second "
+                                  "instance constructed %s): instance 2 %s while instance 1 was inside its exclusive critical section" % (
+                                      cache_mode, "while the request was in flight" if late else "before",
+                                      "entered %r" % (r["entered_while_held"][:2],) if r["entered_while_held"] else "answered"), rp, signature=None)
+                if any(r["errors"]) or any(c is None for c in r["resps"]):
+                    ctx.obligation("two-instance-scenario-ran", False, repr((name, cache_mode, late, r["errors"]))[:500])
+                    continue
+                runs.append((rp, r))
+                cases.append(((w, [], setup, [a, b], []), (r["store"], r["setup"], r["resps"])))
+    ctx.obligation("two-instance-scenario-parked", any(r["parked"] for _, r in runs), "no run had request A inside its exclusive section")
+    nonser = ctx.diff_cases("inst_ser", xc.COQ_HEADER, "(fun c => c)", cases, xc.enc_sched_case, xc.enc_sched_out, "ser_case", shard=40)
+    if nonser is None:
+        return
+    ctx.extra["instances"] = dict(run=len(runs), not_serialisable=len(nonser))
+    ctx.obligation("correspondence:instances-serialisable", not nonser,
+                   "" if not nonser else "%d of %d two-instance outcomes are those of no serial order" % (len(nonser), len(runs)))
+    for i in nonser[:1]:
+        rp, r = runs[i]
+        ctx.violation("two server instances on one folder: outcome of no one-at-a-time execution (%s, cache folders: %s): %s; store %s" % (
+            rp["name"], rp["cache_mode"], rp["responses"], rp["store"][:300]), rp, signature=None)
+
+
+# ------------------------------------------------------------------------------- part E: concurrent readers
+READER_PLANS = [[("u", 0), ("u", 0)], [("u", 0), ("u", 0), ("v", 1), ("v", 2)], [("u", 1), ("u", 1), ("v", 3), ("u", 2)],
+                [("u", 4), ("v", 4), ("u", 2), ("v", 2)], [("u", 0), ("v", 0), ("u", 0), ("v", 0), ("u", 1), ("v", 1)]]
+
+
+def part_readers(ctx):
+    """Readers are not side-effect free (cache, sync-token files under the SHARED lock) and share the Application
+    object: several identical / different read-only requests at once, on a store state whose caches are cold, must
+    each get exactly the answer the same request gets alone."""
+    rng = ctx.rng
+    reported = False
+    total = 0
+    for k, plan in enumerate(READER_PLANS):
+        for stype in ("multifilesystem", "multifilesystem_nolock"):
+            rounds = ctx.n(3, 25)
+            bad = xc.run_concurrent_readers(rng.randrange(2, 6), plan, stype, rounds=rounds, seed=rng.randrange(10**6))
+            total += rounds * len(plan)
+            ctx.case(("readers", repr(plan), stype), nontrivial=True)
+            ctx.count("readers:requests", rounds * len(plan))
+            ctx.count("readers:answers-differ", len(bad))
+            if bad and not reported:
+                reported = True
+                b = bad[0]
+                ctx.violation("a read-only request answered differently when issued concurrently with other readers than alone "
+                              "(%s %s: concurrently %s, alone %s)" % (b["request"][0], b["request"][1], b["concurrent_status"], b["alone_status"]),
+                              dict(kind="readers", plan=plan, storage_type=stype, rounds=rounds, first=b, differing=len(bad)), signature=None)
+    ctx.extra["readers"] = dict(requests=total)
 
 # ------------------------------------------------------------------------------- entry points
 def run(ctx):
@@ -433,9 +520,13 @@ def run(ctx):
         ctx.log("schedules done")
         part_stress(ctx, et)
         ctx.log("thread stress done")
-        tempfile.tempdir = old_tmp       # several processes, one folder: on the real disk file system (flock)
+        part_readers(ctx)
+        ctx.log("concurrent readers done")
+        tempfile.tempdir = old_tmp       # several processes / instances, one folder: on the real disk file system (flock)
         part_procs(ctx, et)
         ctx.log("process stress done")
+        part_instances(ctx, et)
+        ctx.log("two instances done")
     finally:
         tempfile.tempdir = old_tmp
     ctx.trusted += ["vlib/x_c09.py: the scripted scheduler (wrapper around storage.acquire_lock), the interval recorder, the "
@@ -461,6 +552,22 @@ def replay(ctx, path):
         same = [repr(c) for c in r["resps"]] == rp.get("responses") and repr(r["store"]) == rp.get("store")
         print("same outcome as recorded:", same)
         return 1 if (lost or (same and data.get("signature") != xc.KNOWN_SPLIT and not lost and "lost" not in rp)) else 0
+    if rp.get("kind") == "instances":
+        setup = x_hcheck.detuple_hist(rp["setup"])
+        (a, b) = x_hcheck.detuple_hist([rp["a"], rp["b"]])
+        r = xc.run_two_instances(world, [], setup, a, b, et, rp["cache_mode"], rp["second_instance_constructed_while_request_in_flight"],
+                                 park=rp.get("park", "enter"))
+        print("lock events (who, what, instance 1 inside its exclusive section?):", r["events"])
+        print("responses:", r["resps"])
+        print("final store:", r["store"])
+        print("instance 2 entered while instance 1 held the lock:", r["entered_while_held"], r["b_done_while_held"])
+        return 1 if (r["entered_while_held"] or r["b_done_while_held"]) else 0
+    if rp.get("kind") == "readers":
+        bad = xc.run_concurrent_readers(3, [tuple(x) for x in rp["plan"]], rp["storage_type"], rounds=rp["rounds"])
+        print("answers that differ from the answer of the same request alone:", len(bad))
+        for b in bad[:2]:
+            print(json.dumps(b, indent=1)[:2500])
+        return 1 if bad else 0
     if rp.get("kind") == "history":
         pre = [(n, t, [tuple(kv) for kv in props]) for n, t, props in rp["predefined"]]
         setup = x_hcheck.detuple_hist(rp["setup"])
@@ -481,7 +588,7 @@ def replay(ctx, path):
                 r = xc.run_stress_threads(world, pre, setup, threads, et, lay["seed"] + k, lay["storage_type"])
             else:
                 procs = [[x_hcheck.detuple_hist(t) for t in p] for p in lay["processes"]]
-                r = xc.run_stress_procs(world, pre, setup, procs, et, lay["seed"] + k)
+                r = xc.run_stress_procs(world, pre, setup, procs, et, lay["seed"] + k, cache_mode=lay.get("cache_mode", "none"))
             hists.append(("rerun %d" % k, world, pre, setup, r))
         judge_histories(ctx, "replay", hists)
         print("re-runs:", ctx.extra.get("stress", {}).get("replay"))
